@@ -224,6 +224,19 @@ def canon_result(r):
 
 class C01(Family):
     prop = "C01"
+    # source-text tie (notes/NOTES-py2lean-tf.md): Generated/TF*.lean are rewritten from the text of the
+    # arithmetic methods of TransferFunction (control/xferfcn.py) of the tree under check on every run and
+    # the run-time operators of the model are proved equal to them
+    extra_modules = ["CtrlVerif.Props.C01GenNeg", "CtrlVerif.Props.C01GenAdd", "CtrlVerif.Props.C01GenMul",
+                     "CtrlVerif.Props.C01GenDiv", "CtrlVerif.Props.C01GenFb", "CtrlVerif.Props.C01GenCtor",
+                     "CtrlVerif.Props.C01Gen"]
+
+    def pre_build(self):
+        import os
+        from core import py2lean_tf, leanproj
+        repo = os.environ.get("VERIF_REPO") or "/repo"
+        problems, self.gen_info = py2lean_tf.regenerate(repo, leanproj.LEAN)
+        return problems
     externals = ["numpy.polymul/polyadd (exact counterparts in the model, validated by the same runs)"]
     assumptions = [
         "binary64 arithmetic of the implementation is exact whenever the model-side audit passes "
